@@ -2087,3 +2087,7 @@ TABLE["C05"] += [
       (MW, _MEX_A, _MEX_A.replace("format(wrapper_id, next_case if next_case else id_val[3])", "format(wrapper_id if next_case else int(re.search(r'_(\\d+)', id_val[3]).group(1)), next_case if next_case else id_val[3])")),
       (MW, "import os\n", "import os\nimport re\n")),
 ]
+TABLE["C10"] += [
+    B("free-functions-of-later-blocks-not-wrapped", {"T14", "T22"},
+      (MW, "        self.wrap_methods(all_funcs, True, global_ns=namespace)\n", "        if not any(isinstance(c, list) and c and c[0][0] == \"\".join('+' + x + '/' for x in namespaces[1:])[:-1] for c in self.content[:-1] if inner_namespace):\n            self.wrap_methods(all_funcs, True, global_ns=namespace)\n")),
+]
